@@ -244,8 +244,9 @@ func (t *Teamserver) ListenerAdd(FromUser string, Type int, Config any) packager
 
 		/* Now set the config/info */
 		Info["Hosts"] = strings.Join(Config.(*handlers.HTTP).Config.Hosts, ", ")
-		Info["Headers"] = strings.Join(Config.(*handlers.HTTP).Config.Headers, ", ")
-		Info["Uris"] = strings.Join(Config.(*handlers.HTTP).Config.Uris, ", ")
+		/* lists are stored as they are: an item may contain ", " itself */
+		Info["Headers"] = Config.(*handlers.HTTP).Config.Headers
+		Info["Uris"] = Config.(*handlers.HTTP).Config.Uris
 
 		/* proxy settings */
 		Info["Proxy Enabled"] = Config.(*handlers.HTTP).Config.Proxy.Enabled
@@ -258,7 +259,7 @@ func (t *Teamserver) ListenerAdd(FromUser string, Type int, Config any) packager
 		Info["Secure"] = Config.(*handlers.HTTP).Config.Secure
 		Info["Status"] = Config.(*handlers.HTTP).Active
 
-		Info["Response Headers"] = strings.Join(Config.(*handlers.HTTP).Config.Response.Headers, ", ")
+		Info["Response Headers"] = Config.(*handlers.HTTP).Config.Response.Headers
 
 		Info["Secure"] = "false"
 		if Config.(*handlers.HTTP).Config.Secure {
